@@ -24,7 +24,7 @@ const (
 // helper (method or function, whatever its name) that finds it by scanning the proof's hidden responses and that
 // fn uses to index <gabi.ProofD>.AResponses.
 func revocationIndexDesc(P *Program, fn *ssa.Function) string {
-	def := "call:gabi.(*ProofD).revocationAttrIndex(<gabi.ProofD>)"
+	def := "call:gabi.revocationAttrIndex(<gabi.ProofD>)"
 	found := ""
 	allInstrs(fn, func(i ssa.Instruction) {
 		lk, ok := i.(*ssa.Lookup)
@@ -95,7 +95,7 @@ func init() {
 				// helper it hands the copy to): isTrue(X, X's accumulator Nu, key.N), bases over that Nu, secrets = X
 				witX := ""
 				mp(P, R, "C11.d", kNewPC+":relation", "commitments returned => isTrue(witness copy, its accumulator's Nu, key.N)", fn, AcceptNilErr(2), &MustPass{Match: func(a Atom) bool {
-					c, ok := callAtom(a, True, "revocation.(*proofStructure).isTrue")
+					c, ok := callAtom(a, True, "revocation.isTrue")
 					if !ok {
 						return false
 					}
@@ -140,14 +140,14 @@ func init() {
 						}
 					}
 					for _, c := range callsIn(g) {
-						if isCallTo(c, "revocation.(*proofStructure).commitmentsFromSecrets") {
+						if isCallTo(c, "revocation.commitmentsFromSecrets") {
 							args := c.Common().Args
 							okSecrets = witX != "" && desc(args[len(args)-1]) == witX
 						}
 					}
 				})
 				R.decide("C11.d", kNewPC+":same-nu", "the commitments are computed over that same Nu and that same witness", okBase && okSecrets, fmt.Sprintf("bases over its Nu: %v, secrets are the witness: %v", okBase, okSecrets), P.Pos(fn.Pos()))
-				if it := mustFunc(P, R, "C11.d", "revocation.(*proofStructure).isTrue"); it != nil {
+				if it := mustFunc(P, R, "C11.d", "revocation.isTrue"); it != nil {
 					be := P.bigEval(it)
 					mp(P, R, "C11.d", FuncKey(it)+":relation", "isTrue is true only if u^alpha mod n compared equal to nu", it, AcceptTrue(0), &MustPass{Match: func(a Atom) bool {
 						t0, t1, ok := eqTerms(a, be)
@@ -200,7 +200,7 @@ func revocationVerifyRule(P *Program, R *Report) {
 	}
 	acc := AcceptTrue(0)
 	mp(P, R, rule, kRevVWC+":structure", "accept => verifyProofStructure passed", fn, acc, &MustPass{Match: func(a Atom) bool {
-		_, ok := callAtom(a, True, "revocation.(*proofStructure).verifyProofStructure")
+		_, ok := callAtom(a, True, "revocation.verifyProofStructure")
 		return ok
 	}})
 	// the bound
@@ -226,7 +226,7 @@ func revocationVerifyRule(P *Program, R *Report) {
 	var accCall *ssa.Call
 	mp(P, R, rule, kRevVWC+":accumulator-signed", "accept => SignedAccumulator.UnmarshalVerify(pk) returned nil", fn, acc, &MustPass{Match: func(a Atom) bool {
 		c, idx := callAndResult(a.V)
-		if c != nil && calleeName(c) == kSaccVerify && idx == 1 && a.Want == Nil && desc(c.Call.Args[0]) == revP+".SignedAccumulator" && desc(c.Call.Args[1]) == pkD {
+		if c != nil && calleeIs(c, kSaccVerify) && idx == 1 && a.Want == Nil && desc(c.Call.Args[0]) == revP+".SignedAccumulator" && desc(c.Call.Args[1]) == pkD {
 			accCall = c
 			return true
 		}
@@ -287,7 +287,7 @@ func setExpectedRule(P *Program, R *Report) {
 		}
 		mp(P, R, rule, kSetExpected+":verified-first", "values are installed only after the accumulator's signature verified", fn, AcceptNilErr(0), &MustPass{Match: func(a Atom) bool {
 			c, idx := callAndResult(a.V)
-			return c != nil && calleeName(c) == kSaccVerify && idx == 1 && a.Want == Nil
+			return c != nil && calleeIs(c, kSaccVerify) && idx == 1 && a.Want == Nil
 		}})
 	}
 	cc := mustFunc(P, R, rule, kProofDCC)
@@ -311,12 +311,12 @@ func setExpectedRule(P *Program, R *Report) {
 	roots := nonErrorReturnValues(cc, 0, 1)
 	found := false
 	for x := range depsIP(P, roots, 0) {
-		if c, ok := x.(*ssa.Call); ok && calleeName(c) == "revocation.(*Proof).ChallengeContributions" {
+		if c, ok := x.(*ssa.Call); ok && calleeIs(c, "revocation.(*Proof).ChallengeContributions") {
 			found = true
 		}
 	}
 	R.decide(rule, kProofDCC+":appended", "the non-revocation contributions are part of the returned challenge contribution", found, "", P.Pos(cc.Pos()))
-	if cf := mustFunc(P, R, rule, "revocation.(*proofStructure).commitmentsFromProof"); cf != nil {
+	if cf := mustFunc(P, R, rule, "revocation.commitmentsFromProof"); cf != nil {
 		var rv []ssa.Value
 		for _, r := range returnsOf(cf) {
 			rv = append(rv, r.Results...)
@@ -335,7 +335,7 @@ func setExpectedRule(P *Program, R *Report) {
 		}
 		R.decide(rule, FuncKey(cf)+":relations", "the contributions of the relations cr, nu, one follow Cr, Cu, Nu in this order", strings.Join(order, ",") == "cr,nu,one", strings.Join(order, ","), P.Pos(cf.Pos()))
 	}
-	if cs := mustFunc(P, R, rule, "revocation.(*proofStructure).commitmentsFromSecrets"); cs != nil {
+	if cs := mustFunc(P, R, rule, "revocation.commitmentsFromSecrets"); cs != nil {
 		var order []string
 		for _, c := range callsIn(cs) {
 			if isCallTo(c, "zkproof.(*QrRepresentationProofStructure).CommitmentsFromSecrets") {
@@ -389,7 +389,7 @@ func refreshAgreementRule(P *Program, R *Report) {
 		R.decide(rule, kPCUpdate+":positions", "exactly positions 1, 2 and 4 are refreshed", len(pos) == 3, fmt.Sprint(len(pos)), P.Pos(fn.Pos()))
 	}
 	// commitmentsFromSecrets list layout: [.., cr, cu, nu, cr-rel, nu-rel, one-rel]
-	if cs := P.Func("revocation.(*proofStructure).commitmentsFromSecrets"); cs != nil {
+	if cs := P.Func("revocation.commitmentsFromSecrets"); cs != nil {
 		okLayout := false
 		for _, c := range callsIn(cs) {
 			if call, ok := c.(*ssa.Call); ok && isCallTo(call, "builtin:append") {
